@@ -13,6 +13,17 @@ CONSTANTS Ord0,        \* path names in lexicographic order
           FreeFrom,    \* invocations started as user action number >= FreeFrom are scheduled freely, earlier ones serially
           Script       \* <<>> or the exact sequence of user-level actions
 
+\* a rule whose command lines are exactly what the harness writes into the rules file for it
+MkRule(tg, src, kind, id, omit, mask, x, pf) ==
+  LET o == IF omit > 0 THEN <<"o" \o ToString(omit)>> ELSE <<>>
+      m == IF mask # <<>> THEN <<"m" \o JoinS([i \in DOMAIN mask |-> ToString(mask[i])], ".")>> ELSE <<>>
+      xx == IF x THEN <<"x">> ELSE <<>>
+      fl == IF o \o m \o xx = <<>> THEN "-" ELSE JoinS(o \o m \o xx, "+")
+      line == "vcmd " \o kind \o " " \o id \o " " \o JoinS(tg, ",") \o " " \o JoinS(src, ",") \o " " \o fl
+  IN [tg |-> tg, src |-> src, cl |-> (IF pf THEN <<"vcmd false", ";">> ELSE <<>>) \o <<line>>,
+      kind |-> kind, id |-> id, omit |-> omit, mask |-> mask, x |-> x, pf |-> pf]
+Rl(tg, src, kind, id) == MkRule(tg, src, kind, id, 0, <<>>, FALSE, FALSE)
+
 Init ==
   /\ InitCore /\ ord = Ord0 /\ rules = Menu[1]
   /\ ws = [p \in {Init0[i][1] : i \in DOMAIN Init0} |->
@@ -59,4 +70,10 @@ TlView == [t \in DOMAIN tl |-> [tl[t] EXCEPT !.blob = [i \in DOMAIN @ |-> NF(@[i
 View == <<rules, env, NM(ws), NM(cache), hist, NM(fstab), rdir, ClockView, mode, goal, plan, TlView, inbox, rxAlive,
           mj, merrs, mstat, NM(mfst), early, verdict, EvView, GView>>
 NoScript == <<>>
+
+\* for C06 at model level: every return of a build, keyed by its position in the history; lib/verif.py checks that all
+\* returns with the same key (the same pre-state, different interleavings) carry the same outcome
+ErrBag(errs) == {<<e, Cardinality({j \in DOMAIN errs : errs[j] = e})>> : e \in SeqSet(errs)}
+OutcomeProbe == (ev.a = "ret" /\ ev.kind = "build" /\ Script # <<>>) =>
+                   PrintT(<<"OUTCOME", g.nuser, ev.verdict, ErrBag(ev.errs), WsContents>>)
 =============================================================================
